@@ -37,7 +37,9 @@ class Sock:
             self.w.log.append(["sent", self.idx, d[o + 1], struct.unpack("!L", d[o + 4:o + 8])[0]])
             o += max(ln, 8)
         return len(d)
-    def shutdown(self, *a): self.shut = True
+    def shutdown(self, *a):
+        if self.shut: raise real_socket.error(errno.ENOTCONN, "Transport endpoint is not connected")
+        self.shut = True
     def close(self): self.closed = True
     def fileno(self): return 1000 + self.idx
     def setblocking(self, b): pass
@@ -170,8 +172,8 @@ class World:
 
     def registry(self):
         out = []
-        for k, v in self.nexus._connections.items():
-            out.append([k, self.idx(v)])
+        for k in self.nexus.connections.dpids:
+            out.append([k, self.idx(self.nexus.getConnection(k))])
         return sorted(out, key=lambda kv: (kv[0] is None, kv[0] or 0))
 
     def conn_state(self):
@@ -184,10 +186,44 @@ class C09(Check):
     prop_module = "PoxModel.Properties.C09"
     lean_targets = ["drv_c09"]
     driver = "drv_c09"
-    theorems = []
-    anchors = [("pox/openflow/of_01.py", 271, 395), ("pox/openflow/of_01.py", 805, 860), ("pox/openflow/of_01.py", 1085, 1147),
-               ("pox/openflow/__init__.py", 379, 406)]
-    design_ref = "DESIGN.md §5 C09, §6 D3"
+    theorems = ["Pox.C09.up_once", "Pox.C09.down_once", "Pox.C09.registry_exact", "Pox.C09.registry_exact_no_overlap", "Pox.C09.early_ps",
+                "Pox.C09.close_only_when_lost", "Pox.C09.registry_exact_full_defect", "Pox.C09.registry_samedpid_needed_defect",
+                "Pox.C09.early_ps_full_defect", "Pox.C09.d3_defect", "Pox.C09.down_without_up_defect",
+                "Pox.C09.dispatch_after_disconnect_defect", "Pox.C09.error_closes_defect"]
+    anchors = [("pox/openflow/of_01.py", 175, 260), ("pox/openflow/of_01.py", 285, 395), ("pox/openflow/of_01.py", 805, 811),
+               ("pox/openflow/of_01.py", 823, 846), ("pox/openflow/of_01.py", 862, 894), ("pox/openflow/of_01.py", 1085, 1109),
+               ("pox/openflow/of_01.py", 1140, 1147), ("pox/openflow/__init__.py", 369, 392), ("pox/openflow/__init__.py", 400, 410)]
+    design_ref = "DESIGN.md §5 C09, §6 D3, Appendix E"
+    coverage_cases = 1000000                     # every case runs under the line tracer (cheap here)
+    technique = ("Lean 4 proof (invariants over all operation histories of a small-step model of Connection/handshake handlers/nexus, "
+                 "proved leaf by leaf through a closed-form case principle `step_elim`) + differential correspondence: the compiled model "
+                 "against the real OpenFlow_01_Task loop, real Connection objects over scripted sockets, real handler tables and real nexus")
+    level_text = ("Theorems (Properties/C09.lean), each for EVERY history of accepts / message arrivals / EOFs / component disconnects / socket "
+                  "failures / sendToDPID calls over any number of connections and datapath ids: up_once (ConnectionUp at most once, and only by "
+                  "the barrier reply or BAD_REQUEST/BAD_TYPE error carrying the xid of the barrier request sent after the last features reply), "
+                  "down_once (at most one ConnectionDown, none without/before ConnectionUp, exactly one for an announced connection that is closed or "
+                  "disconnected, the only exception being the deferred event of a failed send until the task closes it), registry_exact (every entry is a "
+                  "live announced connection with that datapath id; the entry is exactly the most recently registered connection if still live; sendToDPID "
+                  "reaches exactly it), registry_exact_no_overlap (literal exactness when connections of one datapath never overlap), early_ps (the announcing "
+                  "step raises exactly the port-status received since the last features reply, in order, once each; none before), close_only_when_lost. "
+                  "The theorems are about the model of the code WITH fixes D03, C09-1, C09-2, C09-3; *_defect theorems give the witnesses on the model of the "
+                  "unrepaired code and for the two statements that remain false (known findings C09-4, C09-5).")
+    level_note = ("Trusted: Lean kernel, axioms propext/Classical.choice/Quot.sound, the hand-written model Model/Conn.lean (tied to the code only by this "
+                  "correspondence run), the harness (scripted sockets, fake listener, recording listeners, unpacker wrapper). Assumed, not proved: event listeners "
+                  "do not re-enter the connection (no halt, no disconnect/send from inside a handler); default OpenFlowConnectionArbiter; xid counter does not wrap; "
+                  "every ofp_error carries data; framing (C02) and the deferred sender (C20) are out of scope.")
+    trusted_base = ["model Model/Conn.lean hand-written from of_01.py / openflow/__init__.py; tied by this correspondence run",
+                    "harness: real OpenFlow_01_Task.run generator driven by hand (fake listener socket, scripted connection sockets), recording listeners, `_connect` wrapper"]
+    assumptions = ["listeners of the lifecycle events do not re-enter the connection (no halt / disconnect / send inside a handler)",
+                   "the default OpenFlowConnectionArbiter (nexus = core.openflow); miss_send_len and clear_flows_on_connect at their defaults",
+                   "fewer than 2^31 xids drawn per run; every ofp_error message carries data; a read() delivers whole messages (framing is C02)",
+                   "registry_exact assumes each connection's features replies name one datapath id (otherwise: known finding C09-5)"]
+    rule = ("case = history of {connect, recv(c, batch of messages), lose(c, eof|select-error), disc(c), sockfail(c), sendto(d)} over <= 4 connections, "
+            "datapath ids {5,6}; corpus = 19 hand-written histories (D3, orphan, dpid change, wrong xid, send errors...), loss at each of 6 points of the handshake "
+            "x {eof, select error, disconnect(), send error} x {alone, beside a live connection of the same datapath} x 2 batchings, every interleaving of the 4 handshake "
+            "messages (both finishing variants) with <= 2 insertions of {port_status, echo_request, packet_in, error(other xid), error(other code)}, all 24 orders of the 4 "
+            "handshake messages with <= 1 insertion, every connect/up/lose order of 2 connections; generated = sampled 3-insertion interleavings and 3-connection orders "
+            "(exhaustive in the thorough tier) + seeded random histories; non-trivial = at least one message was dispatched")
 
     def setup(self):
         self.core = poxenv.boot()
@@ -205,6 +241,41 @@ class C09(Check):
             if w is not None: w.log.append(["reg", con.dpid, w.idx(con)])
             return orig_connect(con)
         nexus._connect = connect_rec
+        self.anchors = self.compute_anchors()
+
+    def compute_anchors(self):
+        """anchored line ranges = the bodies of the functions the model mirrors, located by name in the tree under test
+        (line numbers move when a fix lands)"""
+        import inspect
+        of_01 = self.of_01
+        import pox.openflow as ofmod
+        out = []
+        def body(f):
+            f = getattr(f, "__func__", f)
+            f = getattr(f, "fget", f)
+            lines, first = inspect.getsourcelines(f)
+            k = 0
+            while not lines[k].lstrip().startswith("def "): k += 1
+            k += 1
+            rel = os.path.relpath(inspect.getsourcefile(f), common.REPO)
+            out.append((rel, first + k, first + len(lines) - 1))
+        D, H, C, N = of_01.DefaultOpenFlowHandlers, of_01.HandshakeOpenFlowHandlers, of_01.Connection, ofmod.OpenFlowNexus
+        for f in (D.handle_STATS_REPLY, D.handle_PORT_STATUS, D.handle_PACKET_IN, D.handle_ERROR, D.handle_BARRIER_REPLY, D.handle_HELLO,
+                  D.handle_ECHO_REQUEST, D.handle_FEATURES_REPLY, H.handle_BARRIER_REPLY, H.handle_ERROR, H.handle_HELLO, H.handle_ECHO_REQUEST,
+                  H.handle_STATS_REPLY, H.handle_FEATURES_REPLY, H.handle_PORT_STATUS, H._finish_connecting, C.close, C.disconnect, C.send,
+                  N.connections, N.getConnection, N.sendToDPID, N._connect, N._disconnect, of_01.handle_OFPST_DESC):
+            body(f)
+        lines, first = inspect.getsourcelines(of_01.OpenFlow_01_Task.run)
+        rel = os.path.relpath(inspect.getsourcefile(of_01.OpenFlow_01_Task.run), common.REPO)
+        idx = lambda text, start=0: next(i for i in range(start, len(lines)) if text in lines[i])
+        a = idx("while core.running"); b_ = idx("listener.accept()"); c = idx("new_sock.setblocking(0)", b_); d = idx("except KeyboardInterrupt")
+        out.append((rel, first + a, first + b_)); out.append((rel, first + c, first + d - 1))
+        return out
+
+    def extra_evidence(self):
+        return {"uncovered_explained": "anchored lines never executed are outside the modelled behaviour: request_description=False (of_01.py:315), the "
+                "version check unreachable through read() (:333-335), a custom arbiter returning no nexus (:349-352), `except: pass` arms (:809-810, :852-862), "
+                "the aborted-connections debug timer (:833), and the deferred-sender / partial-write / EAGAIN arms of Connection.send (:880-893, C20's business)"}
 
     def recorder(self, where, name):
         chk = self
